@@ -757,8 +757,8 @@ class Lexer(object):
     # name (an identifier name, a string or a number) and a left
     # parenthesis; anywhere else they are plain identifiers.
     accessor = (
-        r'(?=[\s\ufeff]+(?:' + identifier + r'|' + string + r'|' + t_NUMBER +
-        r')[\s\ufeff]*\()'
+        r'(?=(?:[\s\ufeff]+(?:' + identifier + r'|' + t_NUMBER +
+        r')|[\s\ufeff]*' + string + r')[\s\ufeff]*\()'
     )
 
     getprop = r'get' + accessor
